@@ -316,8 +316,9 @@ class PanopticaResult(object):
         prediction_empty = pred_binary.sum() == 0
         reference_empty = ref_binary.sum() == 0
         if prediction_empty or reference_empty:
+            # the handler expects instance counts: an empty mask has zero instances, a non-empty one at least one
             is_edgecase, result = self._edge_case_handler.handle_zero_tp(
-                metric, 0, int(prediction_empty), int(reference_empty)
+                metric, 0, int(not prediction_empty), int(not reference_empty)
             )
             if is_edgecase:
                 return result
